@@ -13,6 +13,12 @@ CLAIMED = {
         "divisors and record boundaries; oracle is equality of concatenated chunk rows with read() rows.",
         "Holds on the explored region only. Trusts Python's gzip module and the per-format serializers in pbt/formats.py.",
         "exhaustive small-domain enumeration + Hypothesis sampling, differential oracle (chunked vs whole read)"),
+    "C02": (
+        "Generated-input search over 21 format variants: Hypothesis builds files from independent grammars (non-canonical but valid spellings, "
+        "unequal widths, CRLF, comments, typed INFO declarations, genotype columns) and every parsed column is compared with a plain-Python "
+        "parse of the same text, for eager and lazy reading and through bnp.open on real files.",
+        "Holds on the explored region only. The reference parse (int(), float(), str.split) and the grammars in pbt/formats.py and pbt/strategies.py are trusted; floats are compared within 8 ulp.",
+        "Hypothesis grammar-based generation, reference-model oracle (independent Python parse)"),
 }
 
 PENDING_REASON = "check not built yet in this commit (work in progress, see DESIGN.md section 9); the technique applies"
